@@ -40,6 +40,19 @@ pub trait Est: Clone {
     fn collect_ref(v: &[(f64, f64)]) -> Self;
     fn extend_val_(&mut self, v: &[(f64, f64)]);
     fn extend_ref_(&mut self, v: &[(f64, f64)]);
+    /// ingestion through iterators with unknown length (size_hint lower bound 0)
+    fn extend_val_u(&mut self, v: &[(f64, f64)]) {
+        self.extend_val_(v)
+    }
+    fn extend_ref_u(&mut self, v: &[(f64, f64)]) {
+        self.extend_ref_(v)
+    }
+    fn collect_val_u(v: &[(f64, f64)]) -> Self {
+        Self::collect_val(v)
+    }
+    fn collect_ref_u(v: &[(f64, f64)]) -> Self {
+        Self::collect_ref(v)
+    }
     fn estimate_pair_(&self) -> Option<(f64, f64)> {
         None
     }
@@ -101,6 +114,22 @@ macro_rules! est_uni {
             fn extend_ref_(&mut self, v: &[(f64, f64)]) {
                 let xs: Vec<f64> = v.iter().map(|p| p.0).collect();
                 Uni::extend_ref(self, &xs)
+            }
+            fn extend_val_u(&mut self, v: &[(f64, f64)]) {
+                let xs: Vec<f64> = v.iter().map(|p| p.0).collect();
+                Uni::extend_val_unsized(self, &xs)
+            }
+            fn extend_ref_u(&mut self, v: &[(f64, f64)]) {
+                let xs: Vec<f64> = v.iter().map(|p| p.0).collect();
+                Uni::extend_ref_unsized(self, &xs)
+            }
+            fn collect_val_u(v: &[(f64, f64)]) -> Self {
+                let xs: Vec<f64> = v.iter().map(|p| p.0).collect();
+                <$T as Uni>::collect_val_unsized(&xs)
+            }
+            fn collect_ref_u(v: &[(f64, f64)]) -> Self {
+                let xs: Vec<f64> = v.iter().map(|p| p.0).collect();
+                <$T as Uni>::collect_ref_unsized(&xs)
             }
             fn estimate_pair_(&self) -> Option<(f64, f64)> {
                 Uni::estimate_pair(self)
@@ -172,6 +201,18 @@ macro_rules! est_pair {
             }
             fn extend_ref_(&mut self, v: &[(f64, f64)]) {
                 Pair::extend_ref(self, v)
+            }
+            fn extend_val_u(&mut self, v: &[(f64, f64)]) {
+                Pair::extend_val_unsized(self, v)
+            }
+            fn extend_ref_u(&mut self, v: &[(f64, f64)]) {
+                Pair::extend_ref_unsized(self, v)
+            }
+            fn collect_val_u(v: &[(f64, f64)]) -> Self {
+                <$T as Pair>::collect_val_unsized(v)
+            }
+            fn collect_ref_u(v: &[(f64, f64)]) -> Self {
+                <$T as Pair>::collect_ref_unsized(v)
             }
         }
     };
@@ -324,11 +365,79 @@ est_hist!(crate::h3::Histogram, "Histogram<3>");
 est_hist!(crate::h10::Histogram, "Histogram<10>");
 est_hist!(crate::h100::Histogram, "Histogram<100>");
 
+/// Histograms built by with_const_width (a different constructor may carry different hidden state)
+#[derive(Clone)]
+pub struct HCW<H: Hist>(pub H);
+macro_rules! est_hist_cw {
+    ($H:ty, $name:expr, $lo:expr, $hi:expr) => {
+        impl Est for HCW<$H> {
+            const NAME: &'static str = $name;
+            const KIND: Kind = Kind::Histo;
+            const HAS_COLLECT: bool = false;
+            const HAS_EXTEND: bool = false;
+            fn new_() -> Self {
+                HCW(<$H as Hist>::with_const_width($lo, $hi))
+            }
+            fn default_() -> Self {
+                Self::new_()
+            }
+            fn add2(&mut self, x: f64, _: f64) {
+                let _ = Hist::add(&mut self.0, x);
+            }
+            fn merge_(&mut self, o: &Self) {
+                Hist::merge(&mut self.0, &o.0)
+            }
+            fn len_(&self) -> Option<u64> {
+                Some(Hist::bins(&self.0).iter().sum())
+            }
+            fn dbg(&self) -> String {
+                format!("{:?}", self.0)
+            }
+            fn is_empty_(&self) -> Option<bool> {
+                None
+            }
+            fn snap(&self) -> Snapshot {
+                let mut v: Snapshot = Vec::new();
+                for (i, r) in Hist::ranges(&self.0).iter().enumerate() {
+                    v.push((format!("range[{}]", i), *r));
+                }
+                for (i, b) in Hist::bins(&self.0).iter().enumerate() {
+                    v.push((format!("bin[{}]", i), *b as f64));
+                }
+                v
+            }
+            fn to_json(&self) -> Result<String, String> {
+                Hist::to_json(&self.0).ok_or_else(|| "no serde".to_string())
+            }
+            fn from_json(s: &str) -> Result<Self, String> {
+                <$H as Hist>::from_json(s).unwrap_or(Err("no serde".into())).map(HCW)
+            }
+            fn to_value(&self) -> Result<serde_json::Value, String> {
+                let s = Hist::to_json(&self.0).ok_or_else(|| "no serde".to_string())?;
+                serde_json::from_str(&s).map_err(|e| e.to_string())
+            }
+            fn from_value(v: serde_json::Value) -> Result<Self, String> {
+                Self::from_json(&v.to_string())
+            }
+            fn collect_val(_: &[(f64, f64)]) -> Self {
+                Self::new_()
+            }
+            fn collect_ref(_: &[(f64, f64)]) -> Self {
+                Self::new_()
+            }
+            fn extend_val_(&mut self, _: &[(f64, f64)]) {}
+            fn extend_ref_(&mut self, _: &[(f64, f64)]) {}
+        }
+    };
+}
+est_hist_cw!(crate::h10::Histogram, "HistogramCW<10>(0,1)", 0.0, 1.0);
+est_hist_cw!(crate::h3::Histogram, "HistogramCW<3>(-1,1)", -1.0, 1.0);
+
 pub const MERGE_TYPES: &[&str] = &[
     "Mean", "Variance", "Skewness", "Kurtosis", "Moments4", "M6", "M10", "Min", "Max", "WeightedMean", "WeightedMeanWithError", "Covariance", "Histogram<3>", "Histogram<10>",
 ];
 pub const SERDE_TYPES: &[&str] = &[
-    "Mean", "Variance", "Skewness", "Kurtosis", "Moments4", "M6", "M10", "Min", "Max", "Quantile(0.5)", "Quantile(0.9)", "Quantile(0.01)", "WeightedMean", "WeightedMeanWithError", "Covariance", "Histogram<3>", "Histogram<10>", "Histogram<100>",
+    "Mean", "Variance", "Skewness", "Kurtosis", "Moments4", "M6", "M10", "Min", "Max", "Quantile(0.5)", "Quantile(0.9)", "Quantile(0.01)", "WeightedMean", "WeightedMeanWithError", "Covariance", "Histogram<3>", "Histogram<10>", "Histogram<100>", "HistogramCW<10>(0,1)", "HistogramCW<3>(-1,1)",
 ];
 pub const INGEST_TYPES: &[&str] = &["Mean", "Variance", "Skewness", "Kurtosis", "Moments4", "M6", "Min", "Max", "WeightedMean", "WeightedMeanWithError", "Covariance"];
 
@@ -367,6 +476,8 @@ macro_rules! est_dispatch {
             "Histogram<3>" => Some($f::<HW<$crate::h3::Histogram>>($($a),*)),
             "Histogram<10>" => Some($f::<HW<$crate::h10::Histogram>>($($a),*)),
             "Histogram<100>" => Some($f::<HW<$crate::h100::Histogram>>($($a),*)),
+            "HistogramCW<10>(0,1)" => Some($f::<HCW<$crate::h10::Histogram>>($($a),*)),
+            "HistogramCW<3>(-1,1)" => Some($f::<HCW<$crate::h3::Histogram>>($($a),*)),
             _ => None,
         }
     }};
